@@ -238,12 +238,27 @@ def ntile (tileNumber : Int) (p : List Nat) : Option (List (Nat × Nat)) :=
 
 /-! ### aggregates and user-defined aggregates with OVER; LISTAGG / JSON_AGG -/
 
-/-- Analyze, the aggregate branch: for every frame `windowValues` collects the cells of the visited
-    records and hands them to the aggregate (`agg idx values`: a built-in aggregate ignores `idx`, a
-    user-defined one evaluates its extra arguments on the record; DISTINCT is part of `agg`) -/
-def aggOver {β : Type} (cells : Nat → Val) (agg : Nat → List Val → β) (w : Window) (p : List Nat) : List (Nat × β) :=
-  (windowFrameSet p w).flatMap fun f =>
-    f.records.map fun idx => (idx, agg idx ((frameRecords p f.low f.high).map cells))
+/-- windowValues: the cells of the visited records.  `make([]value.Primary, 0, frame.High-frame.Low+1)`
+    panics ("makeslice: cap out of range", surfacing as a Fatal Error) when `High < Low - 1`; `none` is
+    that panic. -/
+def windowValues (cells : Nat → Val) (p : List Nat) (f : Frame) : Option (List Val) :=
+  if f.high - f.low + 1 < 0 then none else some ((frameRecords p f.low f.high).map cells)
+
+/-- Analyze, the aggregate branch: the frames are processed in order; every frame's cells are handed
+    to the aggregate (`agg idx values`: a built-in aggregate ignores `idx`, a user-defined one
+    evaluates its extra arguments on the record; DISTINCT is part of `agg`) -/
+def aggFrames {β : Type} (cells : Nat → Val) (agg : Nat → List Val → β) (p : List Nat) : List Frame → Option (List (Nat × β))
+  | [] => some []
+  | f :: fs =>
+    match windowValues cells p f with
+    | none => none
+    | some values =>
+      match aggFrames cells agg p fs with
+      | none => none
+      | some rest => some (f.records.map (fun idx => (idx, agg idx values)) ++ rest)
+
+def aggOver {β : Type} (cells : Nat → Val) (agg : Nat → List Val → β) (w : Window) (p : List Nat) : Option (List (Nat × β)) :=
+  aggFrames cells agg p (windowFrameSet p w)
 
 /-- AnalyticListAgg / AnalyticJsonAgg: the cells of the whole partition, in partition order -/
 def listAggOver {β : Type} (cells : Nat → Val) (agg : List Val → β) (p : List Nat) : List (Nat × β) :=
